@@ -183,7 +183,8 @@ class TheoryOracle(walkers.DagWalker):
     @walkers.handles(op.BOOL_CONNECTIVES)
     @walkers.handles(op.BV_OPERATORS)
     @walkers.handles(op.STR_OPERATORS -\
-                     set([op.STR_LENGTH, op.STR_INDEXOF, op.STR_TO_INT]))
+                     set([op.STR_LENGTH, op.STR_INDEXOF, op.STR_TO_INT,
+                          op.INT_TO_STR]))
     @walkers.handles(op.ITE, op.ARRAY_SELECT, op.ARRAY_STORE, op.MINUS)
     def walk_combine(self, formula: FNode, args: List[Theory], **kwargs) -> Theory:
         """Combines the current theory value of the children"""
@@ -263,6 +264,12 @@ class TheoryOracle(walkers.DagWalker):
         theory_out.integer_arithmetic = True
         theory_out.integer_difference = True
         return theory_out
+
+    @walkers.handles(op.INT_TO_STR)
+    def walk_int_to_str(self, formula: FNode, args: List[Theory], **kwargs) -> Theory:
+        #pylint: disable=unused-argument
+        """Extends the Theory with Strings."""
+        return args[0].set_strings() # This makes a copy of args[0]
 
     def walk_bv_tonatural(self, formula: FNode, args: List[Theory], **kwargs) -> Theory:
         #pylint: disable=unused-argument
